@@ -118,6 +118,94 @@ fn run_case(line: &str, base: u64) -> String {
     )
 }
 
+// ------------------------------------------------------------------- HistogramFn entry points
+// `H <prog> ; <sched>`: ONE thread drives an AtomicBucket<f64> through its HistogramFn entry points
+// (metrics-util/src/storage/mod.rs), alternately via a `metrics::Histogram::from_arc` handle and via the
+// trait on the bucket itself: R<v> = record(v), M<v>x<n> = record_many(v, n), D / C / E as above.
+// The model runs record_many(v, n) as n consecutive push calls (call indices k, k+1, ..). An f64 has no
+// room for a per-copy identity, so every copy carries (k of the first copy, v) and the identity of a
+// delivered copy is recovered from its position among the copies of the same call within one read
+// (oldest block first, slot order = push order). Output format as for the other cases.
+fn h_show(slices: &[Vec<f64>]) -> String {
+    let mut ids: Vec<Vec<String>> = slices.iter().map(|s| vec![String::new(); s.len()]).collect();
+    let mut seen: HashMap<u64, u64> = HashMap::new();
+    for si in (0..slices.len()).rev() {
+        for (ei, x) in slices[si].iter().enumerate() {
+            let raw = *x as u64;
+            if (raw as f64) != *x {
+                ANOM.fetch_add(1, SeqCst);
+            }
+            let (kbase, v) = (raw / 16, raw % 16);
+            let c = seen.entry(kbase).or_insert(0);
+            ids[si][ei] = format!("0.{}.{}", kbase + *c, v);
+            *c += 1;
+        }
+    }
+    ids.iter().map(|s| format!("[{}]", s.join("+"))).collect::<Vec<_>>().join("")
+}
+
+fn run_hist_case(line: &str) -> String {
+    use metrics::HistogramFn;
+    let (prog, sched) = line[2..].split_once(';').unwrap();
+    let prog: Vec<String> = prog.trim().split(',').filter(|s| !s.is_empty()).map(|s| s.to_string()).collect();
+    let sched: Vec<usize> = sched.split_whitespace().map(|s| s.parse().unwrap()).collect();
+    let before = ANOM.load(SeqCst);
+    let bucket: Arc<AtomicBucket<f64>> = Arc::new(AtomicBucket::new());
+    let handle = metrics::Histogram::from_arc(bucket.clone());
+    let results: Arc<Mutex<Vec<String>>> = Arc::new(Mutex::new(Vec::new()));
+    let (b2, r2) = (bucket.clone(), results.clone());
+    let body: Box<dyn FnOnce() + Send> = Box::new(move || {
+        let mut k: u64 = 0; // call index in the expanded program
+        for (j, c) in prog.iter().enumerate() {
+            let via_handle = j % 2 == 0;
+            let mut toks: Vec<String> = Vec::new();
+            if let Some(v) = c.strip_prefix('R') {
+                let v: u64 = v.parse().unwrap();
+                let enc = (k * 16 + v) as f64;
+                if via_handle { handle.record(enc) } else { HistogramFn::record(&*b2, enc) }
+                toks.push("P".to_string());
+                k += 1;
+            } else if let Some(rest) = c.strip_prefix('M') {
+                let (v, n) = rest.split_once('x').unwrap();
+                let (v, n): (u64, usize) = (v.parse().unwrap(), n.parse().unwrap());
+                let enc = (k * 16 + v) as f64;
+                if via_handle { handle.record_many(enc, n) } else { HistogramFn::record_many(&*b2, enc, n) }
+                for _ in 0..n {
+                    toks.push("P".to_string());
+                }
+                k += n as u64;
+            } else if c == "D" {
+                let mut sl: Vec<Vec<f64>> = Vec::new();
+                b2.data_with(|xs| sl.push(xs.to_vec()));
+                toks.push(format!("D{}", h_show(&sl)));
+                k += 1;
+            } else if c == "C" {
+                let mut sl: Vec<Vec<f64>> = Vec::new();
+                b2.clear_with(|xs| sl.push(xs.to_vec()));
+                toks.push(format!("C{}", h_show(&sl)));
+                k += 1;
+            } else {
+                toks.push(format!("E{}", if b2.is_empty() { 1 } else { 0 }));
+                k += 1;
+            }
+            r2.lock().unwrap().extend(toks);
+        }
+    });
+    let out = sched::run(&sched, vec![body], 100000);
+    let mut sl: Vec<Vec<f64>> = Vec::new();
+    bucket.data_with(|xs| sl.push(xs.to_vec()));
+    let fin = h_show(&sl);
+    let empty_before = bucket.is_empty();
+    let mut sl2: Vec<Vec<f64>> = Vec::new();
+    bucket.clear_with(|xs| sl2.push(xs.to_vec()));
+    if fin != h_show(&sl2) || !bucket.is_empty() || empty_before != !fin.contains('.') {
+        ANOM.fetch_add(1, SeqCst);
+    }
+    let trace: Vec<String> = out.steps.iter().map(|(t, s)| format!("{}:{}", t, s)).collect();
+    let res = results.lock().unwrap().join(",");
+    format!("{} ; {} ; {} ; {} ; {}", trace.join(" "), res, if out.all_finished { 1 } else { 0 }, fin, ANOM.load(SeqCst) - before)
+}
+
 // ---------------------------------------------------------------------------------- stress engine
 // `STRESS <seed> <rounds> <per_pusher>`: free-running rounds on real threads (no scheduler callback):
 // 4-8 pushers of tagged values || 0-2 clearers || 1-2 snapshotters, then join + final clear_with.
@@ -421,6 +509,14 @@ fn main() {
     for line in stdin.lock().lines() {
         let line = line.unwrap();
         if line.trim().is_empty() {
+            continue;
+        }
+        if line.starts_with("H ") {
+            let l2 = line.clone();
+            match std::panic::catch_unwind(move || run_hist_case(&l2)) {
+                Ok(s) => writeln!(w, "{}", s).unwrap(),
+                Err(_) => writeln!(w, " ;  ; 0 ;  ; 999").unwrap(),
+            }
             continue;
         }
         if line.starts_with("STRESS") {
